@@ -947,3 +947,25 @@ V("solve-passes-queue-as-flags", "break", ["C02"], BS, None, None, "solve() hand
   edits=[{"old": "                self.not_entailed_propagators_stack,\n                self.dom_update_stack,\n                self.stacks_top,\n                self.triggered_propagators,\n                self.consistency_alg_idx,\n",
           "new": "                self.triggered_propagators,\n                self.dom_update_stack,\n                self.stacks_top,\n                self.not_entailed_propagators_stack,\n                self.consistency_alg_idx,\n",
           "within": "def solve(self)"}])
+# ---- R-AFFINE-BOUND (round 6): bounds derived from a linear inequality by division
+V("affine-leq-max-rounded-up", "break", ["C01", "C02"], P + "affine_leq_propagator.py", "                new_max = old_domains[i, MIN] + (domain_sum_max // c)\n",
+  "                new_max = old_domains[i, MIN] - (-domain_sum_max // c)\n", "the maximum derived for a positive coefficient is the ceiling of the rational bound", "compute_domains_affine_leq",
+  expect_rule="R-AFFINE-BOUND")
+V("affine-geq-delta-hoisted", "break", ["C01", "C02"], P + "affine_geq_propagator.py", None, None,
+  "the quotient hoisted out of the sign test: right for the minimum, rounded the wrong way for the maximum", "compute_domains_affine_geq", expect_rule="R-AFFINE-BOUND",
+  edits=[{"old": "            if c > 0:\n                new_min = old_domains[i, MAX] - (domain_sum_min // -c)\n", "new": "            delta = domain_sum_min // -c\n            if c > 0:\n                new_min = old_domains[i, MAX] - delta\n"},
+         {"old": "                new_max = old_domains[i, MIN] + (-domain_sum_min // -c)\n", "new": "                new_max = old_domains[i, MIN] - delta\n"}])
+V("affine-eq-own-contribution", "break", ["C01", "C02"], P + "affine_eq_propagator.py", "                new_max = old_domains[i, MIN] + (domain_sum_max // c)\n",
+  "                new_max = old_domains[i, MAX] + (domain_sum_max // c)\n", "the maximum is built on the variable's maximum although the accumulator subtracted its minimum", "compute_domains_affine_eq",
+  expect_rule="R-AFFINE-BOUND")
+V("affine-eq-wrong-accumulator", "break", ["C01", "C02"], P + "affine_eq_propagator.py", "                new_min = old_domains[i, MAX] - (-domain_sum_max // c)\n",
+  "                new_min = old_domains[i, MAX] - (-domain_sum_min // c)\n", "negative coefficient: the minimum is derived from the accumulator that subtracted c * x.MIN", "compute_domains_affine_eq",
+  expect_rule="R-AFFINE-BOUND")
+V("affine-geq-quotient-sign", "break", ["C01", "C02"], P + "affine_geq_propagator.py", "                new_min = old_domains[i, MAX] - (domain_sum_min // -c)\n",
+  "                new_min = old_domains[i, MAX] - (domain_sum_min // c)\n", "a lost negation: the minimum is x.MAX - acc/c over the reals", "compute_domains_affine_geq", expect_rule="R-AFFINE-BOUND")
+V("affine-leq-quotient-temp", "neutral", ["C01", "C02"], P + "affine_leq_propagator.py", "                new_max = old_domains[i, MIN] + (domain_sum_max // c)\n",
+  "                q = domain_sum_max // c\n                new_max = q + old_domains[i, MIN]\n", "the quotient held in a local, the sum commuted")
+V("affine-leq-double-negation", "neutral", ["C01", "C02"], P + "affine_leq_propagator.py", "                new_min = old_domains[i, MAX] - (-domain_sum_max // c)\n",
+  "                new_min = old_domains[i, MAX] + -(-domain_sum_max // c)\n", "x - q written as x + -q")
+V("affine-geq-negated-both", "neutral", ["C01", "C02"], P + "affine_geq_propagator.py", "                new_max = old_domains[i, MIN] + (-domain_sum_min // -c)\n",
+  "                nc = -c\n                new_max = old_domains[i, MIN] + (-domain_sum_min // nc)\n", "the negated coefficient held in a local")
